@@ -86,7 +86,10 @@ JUDGEMENT CALLS
     would - as a 1-octet length.)  Component order is not checked.  IPv4 prefix component:
     length <= 32, ceil(length/8) octets.  IPv6 prefix component: length <= 128, offset <= length,
     ceil((length - offset)/8) octets (RFC 8956 3.1; the superseded draft carried
-    ceil(length/8) - offset/8, which differs for offsets that are not multiples of 8).
+    ceil(length/8) - offset/8, which differs for offsets that are not multiples of 8).  RFC 8956
+    also demands offset < length unless both are 0; offset == length is sized here (0 pattern
+    octets) and not rejected as such - values are not judged - so it is reported only when the
+    octets present disagree with that size.
     Operator components: value size 1 << ((op >> 4) & 3); the list ends at the first operator
     with the end-of-list bit; a component whose list is not ended inside the NLRI is reported.
     Component types outside 1..12 (IPv4) / 1..13 (IPv6) cannot be sized and are reported.
@@ -117,7 +120,15 @@ JUDGEMENT CALLS
     container of (afi, safi) pairs; the UPDATE body is (1, 1).
 16. When the header length is wrong the body actually present is still walked, so one defect
     can produce more than one line.  Walking stops inside a container at the first point where
-    the cursor can no longer be trusted.
+    the cursor can no longer be trusted.  Inside one attribute container at most 6 lines are
+    listed before the closing overrun / header line (a lost cursor reads garbage "attributes");
+    the first line is the one that names the cause.
+17. Inherent blind spots of any structural reading: a length that is off by a few octets is
+    invisible when the octets that follow happen to form well-nested units again (e.g. a sub-TLV
+    length + 1 followed by zeros that read as <type 0, length 0>, which is why reserved type 0 is
+    reported; a label without bottom-of-stack followed by a prefix octet with its low bit set,
+    which reads as a deeper label stack with a shorter prefix).  The walker reports what no
+    legal reading explains; it cannot know which legal reading was meant.
 """
 
 MARKER = b'\xff' * 16
